@@ -64,10 +64,10 @@ Print Assumptions C10_open_never_upgrades.
    monitored_directory_copy(entity): when the entity's workspace is closed it is opened "r", the file is unchanged, and it is
    closed again; when it is open (any mode) and the copy issues only reader routines on it, file and handle are unchanged. *)
 Theorem C10_helpers_readonly :
-  (forall f lk cf,
-     let w0 := {| handle_of := Closed; defmode := R; file := f; locked := lk; close_fault := cf |} in
-     handle_of (fst (open_ None w0)) = Open R /\ path2workspace_run f lk cf = (w0, None))
-  /\ (forall body w, handle_of w = Closed -> close_fault w = false -> forallb (call_in_table T_iocalls) body = true ->
+  (forall f lk cf nc,
+     let w0 := {| handle_of := Closed; defmode := R; file := f; locked := lk; close_fault := cf; repack := false; ncat := nc |} in
+     handle_of (fst (open_ None w0)) = Open R /\ path2workspace_run f lk cf nc = (w0, None))
+  /\ (forall body w, handle_of w = Closed -> forallb (call_in_table T_iocalls) body = true ->
         handle_of (fst (open_ (Some R) w)) = Open R
         /\ file (fst (step w (MonitoredCopy body))) = file w
         /\ handle_of (fst (step w (MonitoredCopy body))) = Closed)
@@ -75,7 +75,7 @@ Theorem C10_helpers_readonly :
         file (fst (step w (MonitoredCopy body))) = file w /\ handle_of (fst (step w (MonitoredCopy body))) = Open m).
 Proof.
   split; [exact path2workspace_readonly|]. split; [|exact monitored_copy_open_readers].
-  intros body w H CF FT. apply monitored_copy_closed; [exact H | exact CF|].
+  intros body w H FT. apply monitored_copy_closed; [exact H|].
   apply forallb_forall. intros c Ic. apply C10_table_calls_gated. rewrite forallb_forall in FT. apply FT. exact Ic.
 Qed.
 Print Assumptions C10_helpers_readonly.
@@ -83,10 +83,10 @@ Print Assumptions C10_helpers_readonly.
 (* non-vacuity: a script that satisfies the hypotheses of the main theorem, mixes readers, writers, listing with a dead referent,
    close, open(), a helper and save_as, and on which the conclusions are not trivial (4 refusals of 2 kinds) *)
 Example C10_nonvacuous :
-  let rd := {| c_fn := "H5Reader.fetch_values"; c_writer := false; c_req := R; c_fails := false |} in
-  let wr := {| c_fn := "H5Writer.update_field"; c_writer := true; c_req := RW; c_fails := false |} in
+  let rd := {| c_fn := "H5Reader.fetch_values"; c_writer := false; c_req := R; c_fails := false; c_repack := false |} in
+  let wr := {| c_fn := "H5Writer.update_field"; c_writer := true; c_req := RW; c_fails := false; c_repack := false |} in
   let ops := [Calls [rd; wr]; List_ 1; Close; Calls [rd]; OpenM None; MonitoredCopy [rd]; SaveAs; Calls [wr]; Path2Workspace] in
-  let w := w_init (Open R) R false in
+  let w := w_init (Open R) R false 1 in
   ro w /\ Forall (fun o => explicit_reopen o = false /\ from_table o) ops
   /\ snd (run ops w) = [Some EReadOnly; Some EReadOnly; None; Some EClosed; None; None; None; Some EReadOnly; None]
   /\ handle_of (fst (run ops w)) = Open R.
